@@ -68,7 +68,7 @@ def window_scripts(rng, n):
             ths = [(rng.choice([5, 15, 45, 105]) + 10 * rng.randrange(0, 8), rng.choice([0, 20, 50, 100]))
                    for _ in range(rng.randrange(1, 3))]
         if rng.random() < 0.2:
-            evs.append(ev(m + 1, t + 10, act="throttle", arg=rng.choice([0, 20, 100])))
+            evs.append(ev(m + 1, t + 10, act=rng.choice(["throttle", "reconfig"]), arg=rng.choice([0, 20, 100])))
             evs.append(ev(m + 2, t + 200))
             evs.append(ev(m + 3, t + 210))
         out.append(script("w%05d" % k, evs, "window-random", throttle=th, throttles=ths))
